@@ -484,3 +484,139 @@ M('C10','silent-insert-reorder-bookkeeping','ds/list_impl.go','''	e.list.Store(l
 ''','''	l.len++
 	e.list.Store(l)
 ''','',silent=True)
+
+# ---------------- C11
+M('C11','deleteall-recursive','ds/set_impl.go','		if s.OrderedMap.Delete(element) {\n			removedElements.Add(element)\n		}\n\n		return nil\n	})\n\n	return removedElements','		if s.Delete(element) {\n			removedElements.Add(element)\n		}\n\n		return nil\n	})\n\n	return removedElements','lock/order reacquire ds.set.applyMutex in ds.set.DeleteAll')
+M('C11','omap-has-nolock','ds/orderedmap/orderedmap.go','''func (o *OrderedMap[K, V]) Size() int {
+	if o == nil {
+		return 0
+	}
+
+	o.mutex.RLock()
+	defer o.mutex.RUnlock()
+''','''func (o *OrderedMap[K, V]) Size() int {
+	if o == nil {
+		return 0
+	}
+''','lock/guarded-by OrderedMap.size in ds/orderedmap.OrderedMap.Size')
+M('C11','omap-foreach-step-unlocked','ds/orderedmap/orderedmap.go','''		o.mutex.RLock()
+		currentEntry = currentEntry.next
+		o.mutex.RUnlock()''','''		currentEntry = currentEntry.next''','lock/guarded-by Element.next in ds/orderedmap.OrderedMap.ForEach')
+M('C11','omap-delete-no-size','ds/orderedmap/orderedmap.go','''	o.dictionary.Delete(key)
+	o.size--
+''','''	o.dictionary.Delete(key)
+''','omap/coupling ds/orderedmap.OrderedMap.Delete size--')
+M('C11','omap-delete-head-not-fixed','ds/orderedmap/orderedmap.go','''	if value.prev != nil {
+		value.prev.next = value.next
+	} else {
+		o.head = value.next
+	}
+''','''	if value.prev != nil {
+		value.prev.next = value.next
+	}
+''','omap/coupling ds/orderedmap.OrderedMap.Delete unlink')
+M('C11','omap-set-moves-existing-to-tail','ds/orderedmap/orderedmap.go','''		previousValue = oldValue.value
+		oldValue.value = newValue
+
+		return previousValue, true''','''		previousValue = oldValue.value
+		oldValue.value = newValue
+		o.tail = oldValue
+
+		return previousValue, true''','omap/coupling ds/orderedmap.OrderedMap.Set existing key untouched')
+M('C11','omap-clear-keeps-dictionary','ds/orderedmap/orderedmap.go','''	o.size = 0
+	o.dictionary = shrinkingmap.New[K, *Element[K, V]]()''','''	o.size = 0''','omap/coupling ds/orderedmap.OrderedMap.Clear resets dictionary')
+M('C11','omap-foreachreverse-from-head','ds/orderedmap/orderedmap.go','''	o.mutex.RLock()
+	currentEntry := o.tail
+	o.mutex.RUnlock()''','''	o.mutex.RLock()
+	currentEntry := o.head
+	o.mutex.RUnlock()''','omap/iteration-order ds/orderedmap.OrderedMap.ForEachReverse')
+M('C11','shrinking-compute-rlock','ds/shrinkingmap/shrinkingmap.go','''func (s *ShrinkingMap[K, V]) Compute(key K, updateFunc func(currentValue V, exists bool) V) (updatedValue V) {
+	s.mutex.Lock()
+	defer s.mutex.Unlock()''','''func (s *ShrinkingMap[K, V]) Compute(key K, updateFunc func(currentValue V, exists bool) V) (updatedValue V) {
+	s.mutex.RLock()
+	defer s.mutex.RUnlock()''','lock/guarded-by ShrinkingMap.m in ds/shrinkingmap.ShrinkingMap.Compute [W]')
+M('C11','shrinking-getorcreate-leak','ds/shrinkingmap/shrinkingmap.go','''	if existingValue, exists := s.m[key]; exists {
+		s.mutex.RUnlock()
+
+		return existingValue, false
+	}
+	s.mutex.RUnlock()''','''	if existingValue, exists := s.m[key]; exists {
+		return existingValue, false
+	}
+	s.mutex.RUnlock()''','lock/balance ds/shrinkingmap.ShrinkingMap.GetOrCreate')
+M('C11','set-add-nolock','ds/set_impl.go','''func (s *set[ElementType]) Add(element ElementType) bool {
+	s.applyMutex.RLock()
+	defer s.applyMutex.RUnlock()
+''','''func (s *set[ElementType]) Add(element ElementType) bool {
+''','set/apply-mutex-protocol ds.set.Add')
+M('C11','set-apply-rlock','ds/set_impl.go','''func (s *set[ElementType]) Apply(mutations SetMutations[ElementType]) (appliedMutations SetMutations[ElementType]) {
+	s.applyMutex.Lock()
+	defer s.applyMutex.Unlock()''','''func (s *set[ElementType]) Apply(mutations SetMutations[ElementType]) (appliedMutations SetMutations[ElementType]) {
+	s.applyMutex.RLock()
+	defer s.applyMutex.RUnlock()''','set/apply-mutex-protocol ds.set.Apply')
+M('C11','addall-reports-all','ds/set_impl.go','''		if !lo.Return2(s.Set(element, types.Void)) {
+			addedElements.Add(element)
+		}
+
+		return nil
+	})
+
+	return addedElements''','''		s.Set(element, types.Void)
+		addedElements.Add(element)
+
+		return nil
+	})
+
+	return addedElements''','set/exact-diff ds.set.AddAll')
+M('C11','apply-inverted-delete','ds/set_impl.go','''		if s.OrderedMap.Delete(element) {
+			removedElements.Add(element)
+		}
+	})''','''		if !s.OrderedMap.Delete(element) {
+			removedElements.Add(element)
+		}
+	})''','set/exact-diff ds.set.apply')
+M('C11','arith-subtract-routing','ds/set_impl.go','''	mutations.AddedElements().Range(s.SubtractedElementsCollector(m, threshold...))
+	mutations.DeletedElements().Range(s.AddedElementsCollector(m, threshold...))''','''	mutations.AddedElements().Range(s.AddedElementsCollector(m, threshold...))
+	mutations.DeletedElements().Range(s.SubtractedElementsCollector(m, threshold...))''','arith/routing ds.setArithmetic.Subtract')
+M('C11','arith-threshold-offbyone','ds/set_impl.go','lo.Cond(increase, threshold, threshold-1) && !opposingSet.Delete(element)','lo.Cond(increase, threshold, threshold) && !opposingSet.Delete(element)','arith/threshold')
+M('C11','somap-decode-value-first','ds/serializableorderedmap/serializable_orderedmap.go','''		var key K
+		bytesReadKey, err := api.Decode(context.Background(), b[bytesRead:], &key)
+		if err != nil {
+			return 0, err
+		}
+		bytesRead += bytesReadKey
+
+		var value V
+		bytesReadValue, err := api.Decode(context.Background(), b[bytesRead:], &value)
+		if err != nil {
+			return 0, err
+		}
+		bytesRead += bytesReadValue
+''','''		var value V
+		bytesReadValue, err := api.Decode(context.Background(), b[bytesRead:], &value)
+		if err != nil {
+			return 0, err
+		}
+		bytesRead += bytesReadValue
+
+		var key K
+		bytesReadKey, err := api.Decode(context.Background(), b[bytesRead:], &key)
+		if err != nil {
+			return 0, err
+		}
+		bytesRead += bytesReadKey
+''','somap/mirror')
+M('C11','somap-decode-forgets-advance','ds/serializableorderedmap/serializable_orderedmap.go','''		bytesRead += bytesReadValue
+
+		o.Set(key, value)''','''		_ = bytesReadValue
+
+		o.Set(key, value)''','somap/consumed')
+M('C11','silent-delete-guard-form','ds/orderedmap/orderedmap.go','''	if value.next != nil {
+		value.next.prev = value.prev
+	} else {
+		o.tail = value.prev
+	}''','''	if value.next == nil {
+		o.tail = value.prev
+	} else {
+		value.next.prev = value.prev
+	}''','',silent=True)
